@@ -48,6 +48,18 @@ check("C11", "exploration",
       "documented precedence table dictates. Exhaustive within the bound, so every pair/triple of precedence classes and every prefix/binary interaction is covered.",
       "Only the token-level operators of the table; operands limited to the listed forms; `!=` and ranges are not tried without spaces (lexing rules).")
 
+check("C12", "exploration",
+      "exhaustive enumeration of definition kinds x placements x use, differential oracle across optimisation levels",
+      "Every combination of 10 right-hand-side kinds (pure and side-effecting, incl. raising ones), 6 placements, private/public, used/unused (thorough: plus every ordered pair of "
+      "kinds) is compiled at -o 0,1,2,3 by the real compiler and executed; outcomes must equal the -o0 outcome.",
+      "Observable behaviour = stdout, uncaught exception type, exit status under CPython 3.11.", engine="compile-batch+pyrun")
+
+check("C13", "exploration",
+      "exhaustive cross product of a program set with the five supported target versions, differential oracle against the default target",
+      "36 version-sensitive constructs, jump-width stress bodies (10..5000 statements in if/for/while/match/function) and the C01 quick families are compiled for each target 3.7-3.11 and executed "
+      "by that version's own interpreter; outcome must equal the 3.11 outcome. The Execute-mode path (`erg --py-command P file.er`) is driven for a construct subset with every interpreter.",
+      "Installed interpreters only; 3.11 is the reference.", engine="compile-batch+pyrun")
+
 check("C21", "model_checking",
       "explicit-state breadth-first search over operation sequences on the real ModuleGraph with a reference-graph invariant in every state",
       "BFS where each transition calls the real ModuleGraph method (add_node_if_none, inc_ref, remove, rename_path, sort) on a clone of the real object; states are "
